@@ -39,7 +39,10 @@ CLASSES = (['allow', 'deny', 'unknown', 'emptyset', 'scope',
             # an unknown name decided by a REGISTERED default rule that is
             # itself scoped to system callers: the requested name is what is
             # enforced (and named in the exception), nothing gates it
-            'unknowndflt-allow', 'unknowndflt-deny'] +
+            'unknowndflt-allow', 'unknowndflt-deny',
+            # a check OBJECT holding a `rule:` reference is the very first
+            # thing a fresh enforcer is asked (nothing loaded yet)
+            'objref-allow', 'objref-deny'] +
            ['ret-' + k for k in RET] +
            # a check OBJECT needs no named rules: empty rule store
            ['eo-allow', 'eo-deny', 'eo-scope', 'eo-ret-str'] +
@@ -91,7 +94,7 @@ def expected_class(cls):
         cls = cls[3:]
     if cls in ('allow', 'pw-allow', 'softscope', 'fileonly-allow',
                'late-allow', 'sysscope-allow',
-               'unknowndflt-allow') or cls in (
+               'unknowndflt-allow', 'objref-allow') or cls in (
             'ret-true', 'ret-one', 'ret-str', 'ret-tuple'):
         return 'allow'
     if cls in ('scope', 'scope-deny'):
@@ -168,7 +171,8 @@ def build(P, parse_rule, cls):
             scope_types=['system']))
     if cls != 'emptyset' and not cls.startswith('eo-'):
         enf.register_defaults(defaults)
-    enf.load_rules()
+    if not cls.startswith('objref'):
+        enf.load_rules()
     if cls.startswith('late-'):
         name = 'svc:' + cls
         for fn in (enf.enforce, enf.authorize):
@@ -188,6 +192,11 @@ def rule_for(P, parse_rule, cls, how):
         if how == 'name':
             return None
         cls = cls[3:]
+    if cls.startswith('objref'):
+        if how == 'name':
+            return None
+        return parse_rule('rule:svc:allow' if cls == 'objref-allow'
+                          else 'not rule:svc:allow')
     if how == 'name':
         if cls == 'unknown' or cls.startswith('unknowndflt'):
             return 'svc:unknown'
